@@ -6,6 +6,7 @@ package main
 import (
 	"go/ast"
 	"go/token"
+	"sort"
 	"strings"
 )
 
@@ -100,6 +101,88 @@ func init() {
 		}
 		x.DefString("checkAssign", checkAssign)
 		x.DefOptBool("saltReadBeforeCheckpoint", saltPos < ckptPos, saltPos != token.NoPos && ckptPos != token.NoPos)
+
+		x.Comment("db/checkpoint_manager.go Checkpoint: every place the result's WALReset field is set (one literal before the outcome branches = every outcome, busy included, carries it)")
+		var resetSites []string
+		if fd := x.Func("db", "CheckpointManager", "Checkpoint"); fd != nil {
+			firstBranch := token.NoPos
+			for _, st := range fd.Body.List {
+				if is, ok := st.(*ast.IfStmt); ok && x.Src(is.Cond) == "rc == 0" {
+					firstBranch = is.Pos()
+				}
+			}
+			ast.Inspect(fd.Body, func(n ast.Node) bool {
+				switch v := n.(type) {
+				case *ast.KeyValueExpr:
+					if x.Src(v.Key) == "WALReset" {
+						where := "after-branches-start"
+						if firstBranch != token.NoPos && v.Pos() < firstBranch {
+							where = "before-branches"
+						}
+						resetSites = append(resetSites, "literal:"+x.Src(v.Value)+":"+where)
+					}
+				case *ast.AssignStmt:
+					for _, l := range v.Lhs {
+						if strings.HasSuffix(x.Src(l), ".WALReset") {
+							resetSites = append(resetSites, "assign:"+x.Src(v))
+						}
+					}
+				}
+				return true
+			})
+		}
+		x.DefStrings("walResetSites", resetSites)
+
+		x.Comment("db/db.go OpenWithDriver: pool settings that reach the READ-WRITE pool (direct calls, and calls in a loop over a list naming rwDB), sorted; and where autocheckpoint is switched off")
+		var rwPool, autock []string
+		if fd := x.Func("db", "", "OpenWithDriver"); fd != nil {
+			poolCall := func(c *ast.CallExpr, recv string) (string, bool) {
+				se, ok := c.Fun.(*ast.SelectorExpr)
+				if !ok || x.Src(se.X) != recv || !strings.HasPrefix(se.Sel.Name, "Set") {
+					return "", false
+				}
+				var as []string
+				for _, a := range c.Args {
+					as = append(as, x.Src(a))
+				}
+				return se.Sel.Name + "(" + strings.Join(as, ", ") + ")", true
+			}
+			ast.Inspect(fd.Body, func(n ast.Node) bool {
+				switch v := n.(type) {
+				case *ast.RangeStmt:
+					if cl, ok := v.X.(*ast.CompositeLit); ok && v.Value != nil {
+						hasRW := false
+						for _, e := range cl.Elts {
+							if x.Src(e) == "rwDB" {
+								hasRW = true
+							}
+						}
+						if hasRW {
+							lv := x.Src(v.Value)
+							ast.Inspect(v.Body, func(m ast.Node) bool {
+								if c, ok := m.(*ast.CallExpr); ok {
+									if sdesc, ok := poolCall(c, lv); ok {
+										rwPool = append(rwPool, sdesc)
+									}
+								}
+								return true
+							})
+						}
+					}
+				case *ast.CallExpr:
+					if sdesc, ok := poolCall(v, "rwDB"); ok {
+						rwPool = append(rwPool, sdesc)
+					}
+					if len(v.Args) >= 1 && strings.Contains(x.Src(v.Args[0]), "wal_autocheckpoint") {
+						autock = append(autock, x.Src(v.Fun), strings.Trim(x.Src(v.Args[0]), "\""))
+					}
+				}
+				return true
+			})
+			sort.Strings(rwPool)
+		}
+		x.DefStrings("rwPoolSettings", rwPool)
+		x.DefStrings("autocheckpointOff", autock)
 
 		x.Comment("db/wal_reset_watch.go (*WALResetWatch).Check: the three returns, in order")
 		var checkRets []string
